@@ -133,6 +133,19 @@ func c11Set(res *explore.Result, contents []string, verbose bool) {
 			}
 			return fs, fl
 		}, "desc"},
+		{"successive AddFile with lookups of positions beyond the set BEFORE every AddFile, ascending queries", func() (*parsley.FileSet, []*text.File) {
+			fl := mk()
+			fs := parsley.NewFileSet()
+			for i, f := range fl {
+				// positions the set does not cover yet (they will belong to this file): asked now, they are unknown;
+				// that answer must not stick once the file has been added
+				for p := bases[i]; p <= bases[i]+len(norm[i])+1; p++ {
+					_ = fs.Position(parsley.Pos(p)).String()
+				}
+				fs.AddFile(f)
+			}
+			return fs, fl
+		}, "asc"},
 	}
 	variants = append(variants, variant{"NewFileSet(first) + AddFile(rest), queries alternating between files", func() (*parsley.FileSet, []*text.File) {
 		fl := mk()
